@@ -32,7 +32,7 @@ def three(a, dt, periods, xi, container=0):
     per = [np.array(periods), list(periods), tuple(periods)][container % 3]
     r1 = sdof.response_series(arg, dt, per, xi)
     r2 = sdof.nigam_and_jennings_response(arg, dt, per, xi)
-    o = eqsig.AccSignal(np.asarray(a, dtype=float), dt)
+    o = eqsig.AccSignal(np.asarray(a), dt)          # the record in the type the caller holds it in (counts, single precision)
     _THREE[0] += 1
     if xi == 0.05 and _THREE[0] % 2:
         # the object's default damping (0.05), asked for after spectra were generated explicitly with other damping values
@@ -94,6 +94,15 @@ def build_traces(path, tier, seed):
             a = np.zeros(n)
             a[min(n - 1, int(rng.integers(1, max(2, n // 2))))] = float(rng.uniform(0.5, 2))
             shape = "delayed_pulse"
+        if i % 5 == 2:
+            # the record as digitiser counts in an integer type (or in single precision): the response is real-valued all the same
+            dt_ = [np.int64, np.int16, np.int8, np.int32, np.float32, np.uint8][(i // 5) % 6]
+            if dt_ is np.float32:
+                a = np.asarray(a, dtype=np.float32)
+            else:
+                top = float(min(np.iinfo(dt_).max, 30000))
+                a = np.round((np.abs(a) if dt_ is np.uint8 else a) / (np.max(np.abs(a)) + 1e-300) * top).astype(dt_)
+            shape += " (%s)" % np.dtype(dt_).name
         dt = gen.dt(rng)
         nper = int(rng.integers(1, 4))
         regs = [regime(rng, i * 3 + k) for k in range(nper)]
